@@ -6,7 +6,7 @@ import re
 
 import numpy
 
-from coqio import Some, to_coq
+from coqio import Some, to_coq, tup
 
 NANCODE = -1
 
@@ -60,7 +60,7 @@ def larr_literal(names: Names, da):
 
 def show_da(names: Names, da):
     """the observation compared with the model's `show`"""
-    return Some(([names.code(d) for d in da.dims], [int(s) for s in da.shape], flat_codes(da.values)))
+    return Some(tup([names.code(d) for d in da.dims], [int(s) for s in da.shape], flat_codes(da.values)))
 
 
 def attempt(f, *a, **kw):
